@@ -9,6 +9,7 @@
 From Coq Require Import NArith List Bool.
 Require Import LF.Base.RWBase LF.Gen.RWMutexGen LF.Gen.ConstsGen LF.Model.RWMutex LF.Proofs.RWMutexProofs LF.Model.Locks LF.Proofs.LocksProofs.
 Import ListNotations.
+Local Open Scope nat_scope.
 
 (* a granted internal write lock: exclusive on every conflicting lock, all other owners unlocked there,
    other owners' guards untouched *)
